@@ -1,7 +1,7 @@
 (* C19 — Division conserves molecules and volume; lineage records are consistent (splitters). *)
 From Coq Require Import ZArith QArith Reals List Bool Arith Sorted.
 From BS Require Import Base.Arith Model.Queue Model.Term Model.Propensity Model.Interface Model.Rules Model.Random Model.SSA Model.Splitters Model.Lineage Model.Worklist
-                       Proofs.SplitProofs Proofs.SSAProofs Proofs.LineageProofs Proofs.LineageIdle Proofs.WorklistProofs Proofs.WorklistProvenance Proofs.CellPaths Proofs.LineageFirstRow Proofs.PairProvenance Proofs.LineageConservation.
+                       Proofs.SplitProofs Proofs.SSAProofs Proofs.LineageProofs Proofs.LineageIdle Proofs.WorklistProofs Proofs.WorklistProvenance Proofs.CellPaths Proofs.LineageFirstRow Proofs.PairProvenance Proofs.LineageConservation Proofs.LineageFirstVolume Proofs.LineageVolumeConservation.
 Import ListNotations.
 Local Open Scope R_scope.
 
@@ -196,6 +196,23 @@ Theorem C19_lineage_rows_conserved :
        (forall i, (i < length (cs_x c))%nat -> ~ In i (sp_perfect sp ++ sp_binomial sp) -> gR xa i = gR (cs_x c) i /\ gR xb i = gR (cs_x c) i)).
 Proof. exact lineage_rows_conserved. Qed.
 
+(* ... and the volumes likewise (same hypotheses): the FIRST reported volumes of the two daughters sum to the mother's LAST reported
+   volume -- both equal it when her splitter duplicates the volume. *)
+Theorem C19_lineage_volumes_conserved :
+  forall (l : lin R) pi2 eps9 eps7 eps12 (u : nat -> R), sm_rules (ln_sim l) = [] -> (forall n, 0 < u n <= 1) ->
+  (forall x p V t, 0 <= array_sum ArithR (lin_props ArithR l x p V t)) ->
+  forall cfuel fuel sps ts cells pos w, StronglySorted Rlt ts ->
+  simulate_lineage ArithR pi2 eps9 eps7 eps12 cfuel fuel l sps ts cells u pos = Done w ->
+  forall p m a b, nth_error (w_lineage w) p = Some m -> sz_daughters m = Some (a, b) ->
+  exists tts0 st0 sp sa sb,
+    data_of m tts0 st0 /\ nth_error (w_lineage w) a = Some sa /\ nth_error (w_lineage w) b = Some sb /\
+    let c := final_cell ArithR tts0 st0 in
+    nth_error sps (Z.to_nat (cs_divided c)) = Some sp /\
+    (In (cs_time c) ts ->
+     exists va ra vb rb, sz_vols sa = va :: ra /\ sz_vols sb = vb :: rb /\
+       (if Nat.eqb (sp_vmode sp) 1 then va = cs_V c /\ vb = cs_V c else va + vb = cs_V c)).
+Proof. exact lineage_volumes_conserved. Qed.
+
 (* Non-vacuity of the whole-lineage theorems: the worklist model, evaluated inside Coq over exact rationals, on a cell with counts (6, 3) and
    volume 1 that divides by a time rule (threshold 1) with a splitter that halves species 0 perfectly and species 1 binomially: three
    recorded cells, mutual links, the daughters' first rows (3, 0) and (3, 3) sum to the mother's last row (6, 3), their volumes to hers. *)
@@ -230,3 +247,4 @@ Print Assumptions C19_daughter_rows_from_partition.
 Print Assumptions C19_first_row_is_birth_state.
 Print Assumptions C19_daughter_pairs_from_one_partition.
 Print Assumptions C19_lineage_rows_conserved.
+Print Assumptions C19_lineage_volumes_conserved.
